@@ -5,6 +5,72 @@ From TP Require Import Model.Dilation Model.COM Model.Equivariance Proofs.Dilati
 Import ListNotations.
 Open Scope Z_scope.
 
+(* Vocabulary (Model/Equivariance.v, Proofs/Equivariance.v, Proofs/Dilation.v):
+     moved d im1 im2       im2 has the same number of axes and  pix im2 (p + d) = pix im1 p  for every
+                           index tuple p  (pix is 0 outside an array: "content d further, blank elsewhere")
+     content_inside mg im  every non-zero pixel lies inside the declared shape and keeps the
+                           margin mg from both ends of every axis
+     room radius sh k c    radius + k <= c <= sh - 1 - radius - k on every axis
+     content_has_room      every non-zero pixel p has room (max_iterations - 1) in canvas 1, and p + d in canvas 2
+     find_maxima           grey_dilation(image, separation, percentile, margin, precise=False)   (C06 model)
+     refine_at             one row of refine_com, python engine                                  (C07 model)
+     locate_discrete       refine_at mapped over find_maxima: locate's table before the tail
+     row_moved d a b       position of b == position of a + d (rationals), mass equal, (size, signal, raw_mass) equal
+   np.percentile is a section variable; used facts: it depends only on the multiset of the
+   non-zero pixels and is non-negative on non-negative pixels. *)
+
+(* (1) Translation, maxima stage: for a non-negative integer image whose content keeps the
+   margin from the canvas edges in both placements, the maxima of the moved image are
+   exactly the moved maxima (same threshold, same boxes, same margin test). *)
+Theorem C09_maxima_moved :
+  forall (percentile : list Z -> Q),
+    (forall l l', Permutation l l' -> percentile l = percentile l') ->
+    (forall l, (forall v, In v l -> 0 <= v) -> (0 <= percentile l)%Q) ->
+  forall d im1 im2 P,
+    moved d im1 im2 ->
+    length d = length (shape im1) ->
+    length (lp_sep P) = length (shape im1) -> length (lp_margin P) = length (shape im1) ->
+    Forall (fun s => 1 <= s) (sizes_of im1 (lp_sep P)) ->
+    content_inside (lp_margin P) im1 -> content_inside (lp_margin P) im2 ->
+    (forall p, 0 <= pix im1 p) ->
+    forall q, In q (find_maxima percentile P im2) <->
+              exists p, q = vadd p d /\ In p (find_maxima percentile P im1).
+Proof. exact maxima_moved. Qed.
+Print Assumptions C09_maxima_moved.
+
+(* (2) Translation, refinement: started d further on the moved image, with room for
+   every possible shift, the centre-of-mass iteration visits the moved windows and
+   reports the moved position and the same mass, size(s), signal and raw_mass. *)
+Theorem C09_refine_moved : forall P d im1 im2 start,
+  moved d im1 im2 -> length d = length (shape im1) -> length (lp_radius P) = length (shape im1) ->
+  length start = length (shape im1) ->
+  room (lp_radius P) (shape im1) (pred (iters_of (lp_maxit P))) start ->
+  room (lp_radius P) (shape im2) (pred (iters_of (lp_maxit P))) (vadd start d) ->
+  row_moved d (refine_at P im1 start) (refine_at P im2 (vadd start d)).
+Proof. exact refine_at_moved. Qed.
+Print Assumptions C09_refine_moved.
+
+(* (3) Translation, composed: locate's table before the tail (integer image,
+   preprocess=False) on the moved image consists of the same rows, every position moved
+   by exactly d and every other column identical. *)
+Theorem C09_locate_discrete_moved :
+  forall (percentile : list Z -> Q),
+    (forall l l', Permutation l l' -> percentile l = percentile l') ->
+    (forall l, (forall v, In v l -> 0 <= v) -> (0 <= percentile l)%Q) ->
+  forall d im1 im2 P,
+    moved d im1 im2 ->
+    length d = length (shape im1) ->
+    length (lp_sep P) = length (shape im1) -> length (lp_margin P) = length (shape im1) ->
+    length (lp_radius P) = length (shape im1) ->
+    Forall (fun s => 1 <= s) (sizes_of im1 (lp_sep P)) ->
+    (forall p, 0 <= pix im1 p) ->
+    content_inside (lp_margin P) im1 -> content_inside (lp_margin P) im2 ->
+    content_has_room P d im1 im2 ->
+    exists rows, Permutation (locate_discrete percentile P im2) rows /\
+                 Forall2 (row_moved d) (locate_discrete percentile P im1) rows.
+Proof. exact locate_discrete_moved. Qed.
+Print Assumptions C09_locate_discrete_moved.
+
 (* (5) batch, in-process (processes <= 1): the returned table is locate on each frame,
    every row tagged with the frame's number (its frame_no attribute, else its
    position in the sequence), concatenated in frame order; frames without features
